@@ -26,6 +26,15 @@ pub fn program(i: u64) -> (String, String) {
     if (i as usize) < exs.len() {
         return (exs[i as usize].program.clone(), format!("example:{}", exs[i as usize].name));
     }
+    if i % 16 == 7 {
+        // a program whose encoding is several KiB long (hundreds of statements)
+        let n = 300 + (i as usize % 5) * 100;
+        let mut body = String::new();
+        for k in 0..n {
+            body.push_str(&format!("    assert!(jet::eq_32(jet::max_32({k}, witness::W{k}), {}));\n", k + 1));
+        }
+        return (format!("fn main() {{\n{body}}}\n"), format!("large:{n}-statements"));
+    }
     let mut tape = Tape::new((0..500).map(|k| splitmix(i * 65537 + k) as u32).collect());
     let g = gen::generate(&mut tape, GenCfg { params: false, ..GenCfg::small() });
     let style = Style::from_seed(splitmix(i));
@@ -200,7 +209,7 @@ pub fn streams() -> Vec<Stream> {
 pub fn def() -> PropertyDef {
     PropertyDef {
         id: "C19",
-        rule: "programs = the shipped examples + 300 (thorough 5000) generated programs, every fifth one a near-miss edit (often rejected, for the error side), in chunks of 16 x {debug off, on}. Per chunk: 5 in-process compilations of every program (fresh CompiledProgram each, interleaved with the other programs of the chunk) must give identical commit encodings and CMRs; 6 (thorough 32) separately started processes (each with its own hash seeds) must report the same digest of encoding + CMR, or the same error status; `simc FILE [--debug]` built from /repo must print `Program:` + base64 of exactly the library's commit encoding and exit 0 when the library returns Ok, and exit non-zero with a non-empty stderr and no `Program:` line when the library returns Err. evaluations = compilations compared + simc runs. Non-trivial = accepted program with >= 3 functions / aliases / witnesses (so the hash maps have something to reorder), debug on; distinct by digest of the text.",
+        rule: "programs = the shipped examples + 300 (thorough 5000) generated programs, every fifth one a near-miss edit (often rejected, for the error side), one per chunk a program of 300-700 statements whose encoding is several KiB long, in chunks of 16 x {debug off, on}. Per chunk: 5 in-process compilations of every program (fresh CompiledProgram each, interleaved with the other programs of the chunk) must give identical commit encodings and CMRs; 6 (thorough 32) separately started processes (each with its own hash seeds) must report the same digest of encoding + CMR, or the same error status; `simc FILE [--debug]` built from /repo must print `Program:` + base64 of exactly the library's commit encoding and exit 0 when the library returns Ok, and exit non-zero with a non-empty stderr and no `Program:` line when the library returns Err. evaluations = compilations compared + simc runs. Non-trivial = accepted program with >= 3 functions / aliases / witnesses (so the hash maps have something to reorder), debug on; distinct by digest of the text.",
         assumptions: &["an order dependence whose probability per process is tiny can be missed: N processes only give 1 - 2^-N confidence for a two-way ordering"],
         streams,
         health: &[],
